@@ -9,6 +9,7 @@ F  every cell is instantiated and called on copies; outcome class (raise vs
 """
 import contextlib
 import io
+import os
 
 import numpy as np
 import quaternion
@@ -328,6 +329,58 @@ def _cell(args):
     return out
 
 
+def _plain_outcome(args):
+    ep, cls, want, seed = args
+    try:
+        f, _objs = build(ep, cls, np.random.default_rng(seed))
+    except Exception as e:
+        return "harness-error: " + repr(e)
+    np.random.seed(3)
+    try:
+        with contextlib.redirect_stdout(io.StringIO()):
+            f()
+        return "returns"
+    except BaseException:
+        return "raises"
+
+
+def _optimized_main(jobs_path, out_path):
+    """entry point of the second interpreter (python -O: __debug__ is False, assert statements are not compiled)"""
+    import json
+    lib()
+    with open(jobs_path) as fh:
+        jobs = [tuple(j) for j in json.load(fh)]
+    with open(out_path, "w") as fh:
+        json.dump({"optimized": not __debug__, "outcomes": par.pmap(_plain_outcome, jobs)}, fh)
+
+
+def _optimized_outcomes(jobs):
+    """the outcome (returns / raises) of every cell under `python -O` (PYTHONOPTIMIZE=1, usual in production images)"""
+    import json
+    import subprocess
+    import sys
+    import tempfile
+    d = tempfile.mkdtemp(prefix="verif-c20-O-")
+    jp, op = os.path.join(d, "jobs.json"), os.path.join(d, "out.json")
+    try:
+        with open(jp, "w") as fh:
+            json.dump([list(j) for j in jobs], fh)
+        root = os.path.dirname(os.path.dirname(os.path.dirname(os.path.abspath(__file__))))
+        pr = subprocess.run([sys.executable, "-O", "-c", "import sys; sys.path.insert(0, %r); from harness.props import c20; c20._optimized_main(%r, %r)" % (root, jp, op)],
+                            stdout=subprocess.PIPE, stderr=subprocess.PIPE, text=True, timeout=1800,
+                            env=dict(os.environ, PYTHONDONTWRITEBYTECODE="1", MPLBACKEND="Agg"))
+        if pr.returncode != 0:
+            raise RuntimeError("optimized interpreter failed:\n" + pr.stderr[-2000:])
+        with open(op) as fh:
+            res = json.load(fh)
+        if not res["optimized"]:
+            raise RuntimeError("python -O did not switch __debug__ off")
+        return res["outcomes"]
+    finally:
+        import shutil
+        shutil.rmtree(d, ignore_errors=True)
+
+
 def run(ctx, replay=None):
     lib()
     thorough = ctx.tier == "thorough"
@@ -342,6 +395,14 @@ def run(ctx, replay=None):
     reps = 3 if thorough else 1
     jobs = [(c["ep"], c["cls"], c["want"], ctx.seed * 1009 + r * 7 + i) for i, c in enumerate(cells) for r in range(reps)]
     outs = par.pmap(_cell, jobs)
+    # the same table under the optimizing interpreter (a guard written as an assert statement is not a guard there)
+    opt = _optimized_outcomes(jobs)
+    for o, go in zip(outs, opt):
+        if go.startswith("harness-error"):
+            raise RuntimeError("cannot build cell %s/%s under python -O: %s" % (o["ep"], o["cls"], go))
+        if go != o["got"] and o["got"] == o["want"]:
+            o.update(got=go, err="outcome under python -O (assert statements are not executed)", optimized_interpreter=True)
+    ctx.notes["cells_under_python_O"] = len(opt)
     for o in outs:
         ctx.replays += 1
         ctx.case((o["ep"], o["cls"]))
